@@ -231,10 +231,32 @@ class WebProcessorSession(BaseProcessorSession):
 
         Coroutine.
         '''
+        is_initial_request = True
+
         while not self._web_client_session.done():
             self._item_session.request = self._web_client_session.next_request()
 
             verdict, reason = self._should_fetch_reason()
+
+            if verdict and not is_initial_request:
+                # The redirect target needs to be allowed by robots.txt too
+                try:
+                    can_fetch = yield from self._fetch_rule.consult_robots_txt(
+                        self._item_session.request)
+                except REMOTE_ERRORS as error:
+                    _logger.error(
+                        _('Fetching robots.txt for ‘{url}’ '
+                          'encountered an error: {error}'),
+                        url=self._item_session.request.url, error=error
+                    )
+                    self._result_rule.handle_error(self._item_session, error)
+                    break
+
+                if not can_fetch:
+                    verdict = False
+                    reason = 'robotstxt'
+
+            is_initial_request = False
 
             _logger.debug('Filter verdict {} reason {}', verdict, reason)
 
